@@ -136,6 +136,7 @@ def translate(row, sid, cfg=None):
         elif k == 'awaitEnd':
             out.append(f"awaitEnd {r['i']} {r['e']}")
             s = r['snap']
+            out.append(f"oAwaited {r['i']} {r['e']} {int(s['sig'])}")
             out.append(f"oEvS {r['e']} {s['st']} {int(s['sig'])} {len(s['res'])}")
             if not r['same']:
                 out.append('oIdentity await-returned-another-object')
